@@ -20,11 +20,13 @@ package unifier
 
 //@ func DefaultConfig
 //@   property C08
+//@   safety
 //@   ensures res.CircuitBreaker.Enabled && res.CircuitBreaker.FailureThreshold == 5 && res.CircuitBreaker.SuccessThreshold == 2 && res.CircuitBreaker.HalfOpenRequests == 3 && res.CircuitBreaker.OpenDuration == 60000000000
 //@   ensures cfgOK(res.CircuitBreaker)
 
 //@ func NewCircuitBreaker
 //@   property C08
+//@   safety
 //@   requires cfgOK(config)
 //@   ensures res != nil && fresh(res) && res.state == 0 && res.failures == 0 && res.successes == 0 && res.halfOpenRequests == 0 && res.config == config
 
